@@ -38,7 +38,7 @@ def checks_for(seed: str, patch: str):
                 for c in v:
                     if c not in out:
                         out.append(c)
-    if own in ("C06",) or seed in ("C07-2", "C07-3", "C07-5", "C07-6", "C07-7", "C07-8", "C08-8", "C17-7", "C04-8", "C04-9", "C07-9", "C07-10", "C08-9", "C08-10", "C17-9", "C17-10", "C16-10", "C04-11", "C04-12", "C07-11", "C07-12", "C08-11", "C08-12", "_harmless-14", "_harmless-15", "_harmless-16", "_harmless-17", "_harmless-31", "_harmless-32", "C11-12"):
+    if own in ("C06",) or seed in ("C07-2", "C07-3", "C07-5", "C07-6", "C07-7", "C07-8", "C08-8", "C17-7", "C04-8", "C04-9", "C07-9", "C07-10", "C08-9", "C08-10", "C17-9", "C17-10", "C16-10", "C04-11", "C04-12", "C07-11", "C07-12", "C08-11", "C08-12", "_harmless-14", "_harmless-15", "_harmless-16", "_harmless-17", "_harmless-31", "_harmless-32", "C11-12", "C04-13", "C04-14", "C07-13", "C07-14", "C08-13", "C08-14"):
         if "C06" not in out:
             out.append("C06")
     return out
